@@ -42,6 +42,51 @@ struct LevelPair {
     }
 };
 
+// The transfer operators are functions of their arguments; the Interpolation object carries only the thread counts and the
+// boundary mode. `warmUpOnEarlierPair` applies every operator of the object under test to ANOTHER level pair of the same
+// depth and dimensions (the mirrored grid: spacings in reverse order) before the checks use it: nothing an earlier call
+// saw may influence a later one.
+inline void warmUpOnEarlierPair(const LevelPair& LP, const ProblemSpec& p, int nthreads, int depth)
+{
+    ProblemSpec q = p;
+    const int nr = p.nr(), nt = p.ntheta();
+    for (int i = 0; i < nr; i++)
+        q.radii[i] = p.radii[0] + (p.radii[nr - 1] - p.radii[nr - 1 - i]);
+    q.radii[0]      = p.radii[0];
+    q.radii[nr - 1] = p.radii[nr - 1];
+    for (int j = 0; j <= nt; j++)
+        q.angles[j] = 2 * M_PI - p.angles[nt - j];
+    q.angles[0]  = 0.0;
+    q.angles[nt] = 2 * M_PI;
+    // exact antipodal partners as the grid constructor demands
+    for (int j = 0; j < nt / 2; j++)
+        q.angles[nt / 2 + j] = q.angles[j] + M_PI;
+    for (int i = 1; i < nr; i++)
+        if (!(q.radii[i] > q.radii[i - 1]))
+            return; // degenerate mirror (rounding): no warm-up
+    q.split_mode = 0;
+    LevelPair LQ;
+    try {
+        LQ.build(q, nthreads, 0, 0, depth);
+    }
+    catch (const std::exception&) {
+        return;
+    }
+    const int nf = LQ.fine->grid().numberOfNodes(), nc = LQ.coarse->grid().numberOfNodes();
+    Vector<double> xc(nc), xf(nf), yc(nc), yf(nf);
+    for (int i = 0; i < nc; i++)
+        xc[i] = 1.0 + 0.001 * i;
+    for (int i = 0; i < nf; i++)
+        xf[i] = 2.0 - 0.001 * i;
+    const Interpolation& I = *LP.interp; // the object under test, applied to the other pair
+    I.applyProlongation(*LQ.coarse, *LQ.fine, yf, xc);
+    I.applyExtrapolatedProlongation(*LQ.coarse, *LQ.fine, yf, xc);
+    I.applyFMGInterpolation(*LQ.coarse, *LQ.fine, yf, xc);
+    I.applyRestriction(*LQ.fine, *LQ.coarse, yc, xf);
+    I.applyExtrapolatedRestriction(*LQ.fine, *LQ.coarse, yc, xf);
+    I.applyInjection(*LQ.fine, *LQ.coarse, yc, xf);
+}
+
 inline bool isMidpointR(const PolarGrid& g, int i)
 {
     if (i <= 0 || i >= g.nr() - 1)
